@@ -464,6 +464,143 @@ def gen_datetime(rng, tier, add, pools):
 
 
 # ------------------------------------------------------------------------------------------------------------
+# whitespace facet at work: element/attribute values split into literal text, character references and CDATA
+# ------------------------------------------------------------------------------------------------------------
+def chunked(rng, text, attr):
+    """split `text` into chunks l/r/c; CR only through a character reference; CDATA only in elements"""
+    out = []
+    i = 0
+    while i < len(text):
+        n = rng.choice([1, 1, 2, 3, len(text)])
+        piece = text[i:i + n]
+        i += n
+        kinds = ["l", "r"] + ([] if attr else ["c"])
+        k = rng.choice(kinds)
+        if "\r" in piece or ("]" in piece and k == "c"):
+            k = "r"
+        out.append(k + hx(piece))
+    return ",".join(out)
+
+
+def gen_whitespace(rng, tier, add, pools):
+    thorough = tier == "thorough"
+    wsrun = lambda lo, hi: "".join(rng.choice(" \t\n\r ") for _ in range(rng.randrange(lo, hi + 1)))
+    types = ["integer", "int", "decimal", "intlist", "decimallist", "unsignedBytelist", "token", "normalizedString", "string",
+             "positiveInteger", "int[maxExclusive=50]"]
+    for _ in range(6000 if thorough else 900):
+        t = rng.choice(types)
+        ntok = rng.choice([1, 1, 2, 2, 3])
+        toks = []
+        for k in range(ntok):
+            first_short = rng.random() < 0.5
+            tok = rng.choice(["1", "7", "0", "-", "+", "a"]) if first_short and rng.random() < 0.8 else \
+                rng.choice(["12", "-3", "+45", "300", "1.5", "007", "2147483648", "ab"])
+            toks.append(tok)
+        text = wsrun(0, 2) + toks[0]
+        for tok in toks[1:]:
+            text += wsrun(1, 2) + tok
+        text += wsrun(0, 2)
+        attr = rng.random() < 0.4
+        add("ws-attr" if attr else "ws-elem", "%s %s %s" % ("pb" if attr else "pc", t, chunked(rng, text, attr) or "l-"))
+    for t in types:         # the class seen by reading: leading whitespace, one-character first token, more tokens
+        for text in [" 1 2", " 1 2 3", "\t1\n2", "  1  2  ", " 1", "1 ", " 12 3", "1 2", " a b", "\n-\n1", " 1\r2"]:
+            add("ws-elem", "pc %s %s" % (t, chunked(rng, text, False)))
+            add("ws-elem", "pc %s l%s" % (t, hx(text.replace("\r", " "))))
+            add("ws-attr", "pb %s l%s" % (t, hx(text.replace("\r", " "))))
+
+
+# ------------------------------------------------------------------------------------------------------------
+# restriction chains over {min,max} x {Inclusive,Exclusive}, 2 and 3 steps, values at bound-1/bound/bound+1 of every level
+# ------------------------------------------------------------------------------------------------------------
+import datetime as _dt
+
+
+def _dt_lit(rng, k, zone=None):
+    """instant number k (half hours around the 2001/2002 year end, UTC) written in a random time zone"""
+    inst = _dt.datetime(2001, 12, 31, 12, 0, 0) + _dt.timedelta(seconds=k)
+    off = rng.choice([0, 0, 60, -60, 120, -120, 330, -570, 840, -840, 14 * 60 - 1, -(13 * 60 + 59)]) if zone is None else zone
+    loc = inst + _dt.timedelta(minutes=off)
+    z = "Z" if off == 0 and rng.random() < 0.7 else "%s%02d:%02d" % ("+" if off >= 0 else "-", abs(off) // 60, abs(off) % 60)
+    return loc.strftime("%Y-%m-%dT%H:%M:%S") + z
+
+
+def gen_chains(rng, tier, add, pools):
+    thorough = tier == "thorough"
+    kinds = [(a, b) for a in (None, "Inclusive", "Exclusive") for b in (None, "Inclusive", "Exclusive") if a or b]
+    bases = ["decimal", "integer", "int", "positiveInteger", "nonNegativeInteger", "double", "dateTime"]
+    for base in bases:
+        combos = [(k1, k2) for k1 in kinds for k2 in kinds]
+        combos += [(rng.choice(kinds), rng.choice(kinds), rng.choice(kinds)) for _ in range(400 if thorough else 70)]
+        for combo in combos:
+            n = len(combo)
+            if base == "dateTime":
+                unit = 1800
+                grid = sorted(rng.sample(range(-40, 41), 2 * n))
+                val = lambda k: _dt_lit(rng, k * unit)
+                near = lambda k: [_dt_lit(rng, k * unit - 1), _dt_lit(rng, k * unit), _dt_lit(rng, k * unit + 1), _dt_lit(rng, k * unit)]
+            else:
+                lo0 = 1 if base == "positiveInteger" else (0 if base == "nonNegativeInteger" else -50)
+                grid = sorted(rng.sample(range(lo0 + 1, lo0 + 120), 2 * n))
+                if base in ("decimal", "double") and rng.random() < 0.5:
+                    val = lambda k: rng.choice(["%d.5", "%d.50", "+%d.5"]) % k if k >= 0 else "%d.5" % k
+                    near = lambda k: ["%d.49" % k, "%d.5" % k, "%d.51" % k, "%d.500" % k] if k >= 0 else \
+                                     ["%d.51" % k, "%d.5" % k, "%d.49" % k, "%d.50" % k]
+                else:
+                    val = lambda k: str(k)
+                    near = lambda k: [str(k - 1), str(k), str(k + 1), ("+0%d" % k) if k >= 0 else str(k)]
+            spec = base
+            inst = []
+            for lvl, (kmin, kmax) in enumerate(combo):
+                lo, hi = grid[lvl], grid[2 * n - 1 - lvl]
+                g = []
+                if kmin:
+                    g.append("min%s=%s" % (kmin, val(lo)))
+                    inst += near(lo)
+                if kmax:
+                    g.append("max%s=%s" % (kmax, val(hi)))
+                    inst += near(hi)
+                spec += "[%s]" % ";".join(g)
+            if base in ("positiveInteger", "nonNegativeInteger"):
+                inst += ["0", "-5", "1", "-1"]
+            for v in inst:
+                add("chain-" + base, "%s %s %s" % ("pe" if rng.random() < 0.7 else ("pa" if rng.random() < 0.5 else "dv"), spec, hx(v)))
+    # enumeration in the value space of dateTime: the same instant in another zone
+    for _ in range(200 if thorough else 40):
+        k = rng.randrange(-40, 41) * 1800
+        spec = "dateTime[enum=%s|%s]" % (_dt_lit(rng, k), _dt_lit(rng, k + 7200))
+        for v in (_dt_lit(rng, k), _dt_lit(rng, k + 7200), _dt_lit(rng, k + 1), _dt_lit(rng, k - 3600)):
+            add("dt-enum", "pe %s %s" % (spec, hx(v)))
+
+
+def gen_dt_order(rng, tier, add, pools):
+    """zoned/unzoned dateTimes at month and year ends with offsets up to +-14:00: compare against the Spec order,
+    canonical representation against the Spec canonical form"""
+    thorough = tier == "thorough"
+    lits = []
+    ends = ["2001-11-30T23:30:00", "2001-12-01T01:30:00", "2001-12-31T23:59:59", "2002-01-01T00:00:00", "2000-02-29T23:00:00",
+            "2000-03-01T01:00:00", "1999-02-28T22:30:00.5", "1999-03-01T00:30:00.50", "2000-12-31T12:00:00", "2001-01-01T00:30:00",
+            "2004-02-28T23:45:00", "1900-02-28T23:45:00", "2001-04-30T20:00:00", "2001-05-01T06:00:00", "0001-01-01T05:00:00"]
+    for e in ends:
+        lits.append(e)
+        for _ in range(2):
+            tzh = rng.choice([0, 1, 2, 5, 13, 14])
+            tzm = 0 if tzh == 14 else rng.choice([0, 30, 59])
+            lits.append("%s%s%02d:%02d" % (e, rng.choice("+-"), tzh, tzm))
+        if rng.random() < 0.5:
+            lits.append(e + "Z")
+    # equal instants in different zones
+    for k in rng.sample(range(-60, 60), 8 if not thorough else 30):
+        lits += [_dt_lit(rng, k * 1800 + 43200), _dt_lit(rng, k * 1800 + 43200)]
+    lits += ["2000-01-01T24:00:00", "2000-01-02T00:00:00"]
+    lits = lits[:70 if not thorough else 140]
+    for a in lits:
+        for b in lits:
+            add("dt-order", "cmp dateTime %s %s" % (hx(a), hx(b)))
+        add("dt-canon", "xsc dateTime " + hx(a))
+        add("dt-canon", "can dateTime " + hx(a))
+
+
+# ------------------------------------------------------------------------------------------------------------
 def gen_cases(rng, tier):
     cases = []
     seen = set()
@@ -476,6 +613,9 @@ def gen_cases(rng, tier):
     gen_decimal(rng, tier, add, pools)
     gen_binary(rng, tier, add, pools)
     gen_datetime(rng, tier, add, pools)
+    gen_whitespace(rng, tier, add, pools)
+    gen_chains(rng, tier, add, pools)
+    gen_dt_order(rng, tier, add, pools)
     return cases, pools
 
 
@@ -483,10 +623,30 @@ def type_base(spec):
     return spec.split("[", 1)[0]
 
 
+DEC_LIKE = {"decimal", "double", "integer", "nonPositiveInteger", "negativeInteger", "nonNegativeInteger", "positiveInteger",
+            "long", "int", "short", "byte", "unsignedLong", "unsignedInt", "unsignedShort", "unsignedByte"}
+
+
 def oracle_request(req):
     """the spec_* request that judges this request (None when there is no oracle)"""
     a = req.split()
     op = a[0]
+    if op == "pc":
+        return "spec_ws %s %s" % (a[1], a[2])
+    if op == "pb":
+        return "spec_wsb %s %s" % (a[1], a[2])
+    if op in ("xsv", "dv", "pe", "pa") and type_base(a[1]) in DEC_LIKE and type_base(a[1]) != "decimal":
+        if op == "dv" and collapse(unhx(a[2])) != unhx(a[2]):
+            return None
+        return "spec_dec_valid %s %s" % (a[1], a[2])
+    if op in ("dv", "pe", "pa") and type_base(a[1]) == "dateTime" and "[" in a[1]:
+        if op == "dv" and collapse(unhx(a[2])) != unhx(a[2]):
+            return None
+        return "spec_dt_valid %s %s" % (a[1], a[2])
+    if op == "cmp" and a[1] == "dateTime":
+        return "spec_dt_order %s %s" % (a[2], a[3])
+    if op in ("xsc", "can") and a[1] == "dateTime":
+        return "spec_dt " + a[2]
     if op == "xsv" and a[1] == "decimal":
         return "spec_dec_valid decimal " + a[2]
     if op in ("dv", "pe", "pa") and type_base(a[1]) == "decimal":
@@ -531,6 +691,18 @@ def spec_judgement(req, impl, spec):
         return None
     a = req.split()
     op = a[0]
+    if op in ("pc", "pb"):
+        if impl == "invalid":
+            return "ok" if spec.startswith("0") else "violates"
+        if impl.startswith("valid"):
+            # verdict and the schema-normalised value delivered to the application
+            return "ok" if spec == "1 " + impl.split()[1] else "violates"
+        return "violates"
+    if op == "cmp" and a[1] == "dateTime":
+        if spec == "notlex":
+            return None
+        want = "-1" if spec == "2" else spec       # DateTimeValidator::compare reports INDETERMINATE as -1
+        return "ok" if impl == want else "violates"
     if op in ("xsv", "dv", "pe", "pa"):
         v = {"1": True, "valid": True, "0": False, "invalid": False}.get(impl.split()[0] if impl else "")
         if v is None:
@@ -565,6 +737,18 @@ def attribute(req, mode):
             if u == [0x2E]:
                 return "F10"        # the literal is an optional sign followed by a lone '.'
     base = type_base(a[1]) if len(a) > 1 else ""
+    if base == "dateTime" and a[0] in ("cmp", "xsc", "can"):
+        def zoned(u):
+            return u[-1:] == [0x5A] or (len(u) > 6 and u[-6] in (0x2B, 0x2D) and u[-3] == 0x3A)
+        us = [collapse(unhx(h)) for h in a[2:]]
+        for u in us:
+            t = u.index(0x54) if 0x54 in u else -1
+            if t >= 0 and u[t + 1:t + 3] == [0x32, 0x34]:
+                return "F31"        # hour 24 is kept as is (not the following day's 00:00:00)
+        if a[0] == "cmp" and len(us) == 2 and zoned(us[0]) != zoned(us[1]):
+            return "F30"
+        if a[0] in ("xsc", "can") and us[0][:5] == [0x30, 0x30, 0x30, 0x31, 0x2D] and zoned(us[0]):
+            return "F32"        # a zoned value of year 0001: normalisation may step into the non-existent year 0000
     if base == "dateTime" and a[0] != "cmp":
         u = collapse(unhx(a[2]))
         t = u.index(0x54) if 0x54 in u else -1
@@ -588,10 +772,24 @@ def attribute(req, mode):
     return None
 
 
-def followups(req, impl):
+XSV_TYPES = DEC_LIKE - {"double"}
+
+
+def followups(req, impl, spec=None):
     """(target, request, expected answer, what, original request)"""
     a = req.split()
     out = []
+    if a[0] in ("pc", "pb") and spec and type_base(a[1]) in XSV_TYPES and "[" not in a[1] and impl.split()[0] in ("valid", "invalid"):
+        # XSValue::validate on the Spec-normalised string must give the in-parse verdict
+        norm = spec.split()[1]
+        if norm != "-":
+            out.append(("impl", "xsv %s %s" % (a[1], norm), "1" if impl.startswith("valid") else "0",
+                        "XSValue::validate on the whitespace-normalised value disagrees with in-parse validation", req))
+    if a[0] in ("xsc", "can") and a[1] == "dateTime" and impl.startswith("ok "):
+        c = impl.split()[1]
+        out.append(("spec", "spec_dt_canon %s %s" % (a[2], c), "1",
+                    "canonical representation of the dateTime is not the canonical literal of the same instant", req))
+        out.append(("impl", "xsc dateTime " + c, "ok " + c, "canonical representation is not idempotent", req))
     if a[0] in ("xsc", "can") and type_base(a[1]) == "decimal" and impl.startswith("ok "):
         c = impl.split()[1]
         out.append(("spec", "spec_dec_canon %s %s" % (a[2], c), "1",
@@ -614,6 +812,8 @@ def followups_bin(req, impl):
 
 def nontrivial(req, impl):
     a = req.split()
+    if a[0] in ("pc", "pb"):
+        return True
     if len(a) < 3:
         return impl != "null"
     if "[" in a[1]:
